@@ -167,18 +167,42 @@ def f5_cursor(ctx):
     """F5 coupled state: a body that assigns Session.text_parts also sets Session.position to 0 on every path to return"""
     ctx.rule('F5', 'new text resets the line cursor', floor=1)
     n = 0
+    sf = model.session_fields(ctx)
+    ZERO = r'((Cell|Default)::)?default(::<[^()]*>)?\(\)|Cell::new\(0\)'
     for b in ctx.facts.src_bodies():
-        sites = field_assigns(b, 'session::Session.text_parts')
-        if not sites:
+        sites = field_assigns(b, sf['lines'])
+        whole = field_assigns(b, sf['container']) if sf['container'] else []
+        if not sites and not whole:
             continue
         n += 1
         ctx.fn(b)
+        for abid, a in whole:
+            # lines and cursor live in one struct that is replaced as a whole: the new value's cursor component is 0
+            vals = [x for x, _c in alternatives(b, b.expr(a['ops'][0]))] if a.get('rv') == 'use' else []
+            short = lambda xs: [str(x).rsplit('.', 1)[-1] for x in xs]
+            cn = sf['cursor_name']
+            if a.get('rv') == 'aggr':
+                names = short(a.get('fields', []))
+                ok_ = cn in names and re.fullmatch(ZERO, render(b.expr(a['ops'][names.index(cn)])))
+            else:
+                ok_ = bool(vals)
+                for v_ in vals:
+                    v0 = strip(v_)
+                    names = short(v0[3]) if v0[0] == 'aggr' and len(v0) > 3 and v0[3] else []
+                    if not (cn in names and re.fullmatch(ZERO, render(v0[2][names.index(cn)]))):
+                        ok_ = False
+            if ok_:
+                ctx.ok('F5', '%s replaces lines and cursor together, the cursor at 0' % fn_key(b.path), 'wiring', site=a['loc'])
+            else:
+                ctx.finding('F5', '%s/cursor-not-reset' % fn_key(b.path), '%s replaces the session\'s line buffer with a value whose cursor is not 0' % fn_key(b.path), site=a['loc'])
+        if not sites:
+            continue
         resets = []
         for bid, t, method, recv in cell_writes(b):
-            if method in ('set', 'replace') and any(f == 'session::Session.position' for f in fields_in(recv)):
+            if method in ('set', 'replace') and any(f == sf['cursor'] for f in fields_in(recv)):
                 val = render(b.expr(t['args'][1])) if len(t['args']) > 1 else '?'
                 resets.append((bid, val, t))
-        for bid, s in field_assigns(b, 'session::Session.position'):
+        for bid, s in field_assigns(b, sf['cursor']):
             resets.append((bid, 'assigned', s))
         pd = b.postdominators()
         dom = b.dominators()
@@ -191,14 +215,34 @@ def f5_cursor(ctx):
                             '%s replaces the session\'s lines but leaves the line cursor where the previous text ended%s' % (fn_key(b.path), ' (a reset exists but not on every path)' if resets else ''), site=a['loc'])
     if n == 0:
         raise AnchorLost('no body assigns Session.text_parts')
+    # giving a session its text puts the cursor on the first line on *every* path - also when the text is the one it already
+    # holds (an evaluation leaves the cursor on the last line; "nothing to re-split" must still rewind)
+    st = ctx.facts.find(r'^session::Session::set_text$')
+    if len(st) != 1:
+        raise AnchorLost('Session::set_text not found')
+    b = st[0]
+    ctx.fn(b)
+    pd = b.postdominators()
+    resets = []
+    for bid, t, method, recv in cell_writes(b):
+        if method in ('set', 'replace') and any(f == sf['cursor'] for f in fields_in(recv)) and len(t['args']) > 1 and render(b.expr(t['args'][1])) == '0':
+            resets.append(bid)
+    for bid, s_ in field_assigns(b, sf['cursor']):
+        resets.append(bid)
+    for bid, a in (field_assigns(b, sf['container']) if sf['container'] else []):
+        resets.append(bid)
+    if any(r_ == 0 or r_ in pd.get(0, ()) for r_ in resets):
+        ctx.ok('F5', 'set_text puts the cursor on the first line on every path', 'post-dominance', site=b.loc)
+    else:
+        ctx.finding('F5', 'set_text/cursor-not-reset-on-every-path', 'Session::set_text has a path to its return that does not put the line cursor back on the first line (an early return): a session whose text was evaluated keeps its cursor on the last line', site=b.loc)
     # constructors build the whole struct: position must start at the default (0)
     for b in ctx.facts.src_bodies():
         for i in b.normal_blocks:
             for s in b.blocks[i]['stmts']:
                 if s['k'] == 'assign' and s['rv'] == 'aggr' and s['adt'] == 'session::Session::Session':
-                    names = s.get('fields', [])
-                    if 'position' in names:
-                        v = render(b.expr(s['ops'][names.index('position')]))
+                    names = [str(x).rsplit('.', 1)[-1] for x in s.get('fields', [])]
+                    if sf['container'] is None and sf['cursor_name'] in names:
+                        v = render(b.expr(s['ops'][names.index(sf['cursor_name'])]))
                         if re.fullmatch(r'((Cell|Default)::)?default(::<[^()]*>)?\(\)|Cell::new\(0\)', v):
                             ctx.ok('F5', '%s builds a Session with position = default' % fn_key(b.path), 'const', site=s['loc'])
                         else:
